@@ -13,6 +13,50 @@ pub fn count_param() -> BoxedStrategy<usize> {
   prop_oneof![4 => 0usize..=5, 1 => 6usize..=9].boxed()
 }
 
+/// sizes beyond the handful the other generators use (the `large` sub-checks): tens of
+/// elements, and the neighbourhood of the powers of two a narrowing cast or a fixed capacity
+/// would trip over
+pub fn count_big() -> BoxedStrategy<usize> {
+  prop_oneof![
+    2 => 0usize..=9,
+    4 => 10usize..=70,
+    1 => prop::sample::select(vec![127usize, 128, 129, 255, 256, 257, 300]),
+  ]
+  .boxed()
+}
+
+/// counts a caller writes for "no limit", and the neighbourhood of the narrower integer types
+pub fn count_huge() -> BoxedStrategy<usize> {
+  prop::sample::select(vec![
+    65_535usize,
+    65_536,
+    u32::MAX as usize,
+    u32::MAX as usize + 1,
+    isize::MAX as usize,
+    isize::MAX as usize + 1,
+    usize::MAX - 1,
+    usize::MAX,
+  ])
+  .boxed()
+}
+
+fn count_for(cfg: &GenCfg) -> BoxedStrategy<usize> {
+  if cfg.big {
+    prop_oneof![6 => count_big(), 1 => count_huge()].boxed()
+  } else {
+    count_param()
+  }
+}
+
+/// like `count_for`, never 0
+fn count1_for(cfg: &GenCfg, small_max: usize) -> BoxedStrategy<usize> {
+  if cfg.big {
+    count_big().prop_map(|n| n.max(1)).boxed()
+  } else {
+    (1usize..=small_max).boxed()
+  }
+}
+
 pub fn mapf() -> BoxedStrategy<MapF> {
   prop_oneof![
     small().prop_map(MapF::Add),
@@ -98,6 +142,8 @@ pub struct GenCfg {
   pub window_group: bool,
   pub switch: bool,
   pub cold: bool,
+  /// large parameters and long inputs (`count_big`)
+  pub big: bool,
   /// operators / combinators excluded by name (known findings, property scoping)
   pub exclude: Vec<String>,
 }
@@ -123,6 +169,7 @@ impl Default for GenCfg {
       window_group: true,
       switch: false,
       cold: true,
+      big: false,
       exclude: vec![],
     }
   }
@@ -154,7 +201,11 @@ pub fn leaf(cfg: &GenCfg) -> BoxedStrategy<Node> {
       prop_oneof![
         small().prop_map(|k| Node::Src(0, Src::Just(k))),
         items(cfg.max_script).prop_map(|v| Node::Src(0, Src::FromIter(v))),
-        (small(), 0i64..=5).prop_map(|(a, n)| Node::Src(0, Src::Range(a, n))),
+        if cfg.big {
+          (small(), count_big()).prop_map(|(a, n)| Node::Src(0, Src::Range(a, n as i64))).boxed()
+        } else {
+          (small(), 0i64..=5).prop_map(|(a, n)| Node::Src(0, Src::Range(a, n))).boxed()
+        },
         Just(Node::Src(0, Src::Empty)),
         Just(Node::Src(0, Src::Never)),
         small().prop_map(|k| Node::Src(0, Src::Start(k))),
@@ -187,11 +238,12 @@ pub fn leaf(cfg: &GenCfg) -> BoxedStrategy<Node> {
   if cfg.unbounded {
     let rep = |k: i64| Box::new(Node::Src(0, Src::Repeat(k)));
     let endl = |a: i64| Box::new(Node::Src(0, Src::Endless(a)));
+    let tk = || if cfg.big { count_big() } else { (0usize..=4).boxed() };
     let mut v: Vec<BoxedStrategy<Node>> = vec![
-      (small(), 0usize..=4).prop_map(move |(k, n)| Node::Un(Op::Take(n), rep(k))).boxed(),
-      (small(), 0usize..=4).prop_map(move |(a, n)| Node::Un(Op::Take(n), endl(a))).boxed(),
+      (small(), tk()).prop_map(move |(k, n)| Node::Un(Op::Take(n), rep(k))).boxed(),
+      (small(), tk()).prop_map(move |(a, n)| Node::Un(Op::Take(n), endl(a))).boxed(),
       small().prop_map(move |a| Node::Un(Op::First, endl(a))).boxed(),
-      (small(), 1usize..=4).prop_map(move |(a, n)| Node::Un(Op::ElementAt(n), endl(a))).boxed(),
+      (small(), count1_for(cfg, 4)).prop_map(move |(a, n)| Node::Un(Op::ElementAt(n), endl(a))).boxed(),
       (small(), 0i64..=4).prop_map(move |(a, d)| Node::Un(Op::All(Pred::Lt(a + d)), endl(a))).boxed(),
     ];
     if cfg.allowed("take_while") {
@@ -253,15 +305,15 @@ pub fn unary_ops(cfg: &GenCfg) -> BoxedStrategy<Op> {
     let all: Vec<(&str, BoxedStrategy<Op>)> = vec![
       ("map", mapf().prop_map(Op::Map).boxed()),
       ("filter", pred().prop_map(Op::Filter).boxed()),
-      ("take", count_param().prop_map(Op::Take).boxed()),
-      ("take_last", count_param().prop_map(Op::TakeLast).boxed()),
+      ("take", count_for(cfg).prop_map(Op::Take).boxed()),
+      ("take_last", count_for(cfg).prop_map(Op::TakeLast).boxed()),
       ("take_while", pred().prop_map(Op::TakeWhile).boxed()),
-      ("skip", count_param().prop_map(Op::Skip).boxed()),
-      ("skip_last", count_param().prop_map(Op::SkipLast).boxed()),
+      ("skip", count_for(cfg).prop_map(Op::Skip).boxed()),
+      ("skip_last", count_for(cfg).prop_map(Op::SkipLast).boxed()),
       ("skip_while", pred().prop_map(Op::SkipWhile).boxed()),
       ("first", Just(Op::First).boxed()),
       ("last", Just(Op::Last).boxed()),
-      ("element_at", (1usize..=6).prop_map(Op::ElementAt).boxed()),
+      ("element_at", count1_for(cfg, 6).prop_map(Op::ElementAt).boxed()),
       ("distinct", Just(Op::Distinct).boxed()),
       ("scan", fold().prop_map(Op::Scan).boxed()),
       ("reduce", fold().prop_map(Op::Reduce).boxed()),
@@ -274,8 +326,8 @@ pub fn unary_ops(cfg: &GenCfg) -> BoxedStrategy<Op> {
       ("contains", small().prop_map(Op::Contains).boxed()),
       ("default_if_empty", small().prop_map(Op::DefaultIfEmpty).boxed()),
       ("ignore_elements", Just(Op::IgnoreElements).boxed()),
-      ("start_with", items(3).prop_map(Op::StartWith).boxed()),
-      ("buffer", (1usize..=4).prop_map(Op::Buffer).boxed()),
+      ("start_with", items(if cfg.big { 40 } else { 3 }).prop_map(Op::StartWith).boxed()),
+      ("buffer", count1_for(cfg, 4).prop_map(Op::Buffer).boxed()),
       ("materialize", Just(Op::Materialize).boxed()),
       ("dematerialize", Just(Op::Dematerialize).boxed()),
       ("tap", Just(Op::Tap).boxed()),
@@ -288,8 +340,8 @@ pub fn unary_ops(cfg: &GenCfg) -> BoxedStrategy<Op> {
     }
     if cfg.window_group {
       if cfg.allowed("window") {
-        v.push((2, (1usize..=4).prop_map(Op::Window).boxed()));
-        v.push((1, (1usize..=3).prop_map(Op::WindowCounts).boxed()));
+        v.push((2, count1_for(cfg, 4).prop_map(Op::Window).boxed()));
+        v.push((1, count1_for(cfg, 3).prop_map(Op::WindowCounts).boxed()));
       }
       if cfg.allowed("group_by") {
         v.push((2, (1i64..=3).prop_map(Op::GroupBy).boxed()));
@@ -298,7 +350,7 @@ pub fn unary_ops(cfg: &GenCfg) -> BoxedStrategy<Op> {
   }
   if cfg.recovery {
     if cfg.allowed("retry") {
-      v.push((6, (1usize..=4).prop_map(Op::Retry).boxed()));
+      v.push((6, count1_for(cfg, 4).prop_map(Op::Retry).boxed()));
     }
     if cfg.allowed("retry_when") {
       v.push((
@@ -731,7 +783,7 @@ pub fn chain(cfg: &GenCfg, min_ops: usize, max_ops: usize) -> BoxedStrategy<Node
 
 /// counts that sit on the boundaries of a script of length `len`
 pub fn boundary_param(op: &Op, len: usize) -> bool {
-  let b = |n: usize| n == 0 || n == 1 || n + 1 == len || n == len || n == len + 1;
+  let b = |n: usize| n == 0 || n == 1 || n.saturating_add(1) == len || n == len || n == len + 1;
   match op {
     Op::Take(n) | Op::TakeLast(n) | Op::Skip(n) | Op::SkipLast(n) | Op::ElementAt(n) | Op::Buffer(n) | Op::Window(n) | Op::WindowCounts(n) => b(*n),
     _ => false,
